@@ -196,7 +196,8 @@ class Exec:
         e = simp(e)
         if not is_sym(e): return e
         k = e.get_id()
-        if k in st.conc: return st.conc[k]
+        c = st.conc.get(k)
+        if c is not None and c[0].eq(e): return c[1]   # the entry keeps its AST alive: z3 reuses the ids of freed ASTs
         if s.concrete is not None: raise Inconclusive('symbolic value in concrete mode')
         vals = []; extra = []
         while True:
@@ -206,8 +207,8 @@ class Exec:
             if len(vals) > s.lim.fork_width: raise Inconclusive('symbolic %s with more than %d feasible values' % (what, s.lim.fork_width))
         if not vals: raise PathEnd('infeasible')
         if len(vals) == 1:
-            st.conc[k] = vals[0]; return vals[0]
-        raise Fork([(e == v, v) for v in sorted(vals)], 'redo', k)
+            st.conc[k] = (e, vals[0]); return vals[0]
+        raise Fork([(e == v, v) for v in sorted(vals)], 'redo', (k, e))
 
     def obj_of(s, st, p, n, what, write=False):
         if not isinstance(p, Ptr):
@@ -857,7 +858,7 @@ class Exec:
             s.assume(t, cond, m); tf = t.frames[-1]
             try:
                 if fk.mode == 'redo':
-                    t.conc[fk.key] = ret; tf.idx -= 1; t.steps -= 1
+                    t.conc[fk.key[0]] = (fk.key[1], ret); tf.idx -= 1; t.steps -= 1
                 else:
                     if ins[1] is not None: tf.env[ins[1]] = ret
                     if ins[0] == 'call' and ins[5] is not None: s.jump(t, tf, ins[5])
